@@ -74,7 +74,9 @@ func (c *SegmentCache) SetSegment(topic string, partition int32, baseOffset int6
 	if elem, ok := c.items[key]; ok {
 		entry := elem.Value.(*cacheEntry)
 		c.size -= len(entry.data)
-		entry.data = append(entry.data[:0], data...)
+		// Allocate instead of reusing the old backing array: GetSegment hands
+		// entry.data out to readers that use it after dropping c.mu.
+		entry.data = append([]byte(nil), data...)
 		c.size += len(entry.data)
 		c.ll.MoveToFront(elem)
 		c.evictIfNeeded()
